@@ -117,6 +117,10 @@ func (g *gen) applyGhostSets(entry bool, callee string, nth int, results []Val, 
 		}
 		e := g.newEnv(st, g.entry)
 		e.results = results
+		if !entry && g.curBlock != nil {
+			// source locals already assigned at this point may be named
+			e.atBlock, e.atEnd = g.curBlock, true
+		}
 		v, err := g.elab1(gs.E, e)
 		if err != nil {
 			g.contractError(cl, err)
